@@ -164,7 +164,7 @@ ima_close	(SF_PRIVATE *psf)
 		if (pima->samplecount && pima->samplecount < pima->samplesperblock)
 			pima->encode_block (psf, pima) ;
 
-		psf->sf.frames = pima->samplesperblock * pima->blockcount / psf->sf.channels ;
+		psf->sf.frames = (sf_count_t) pima->samplesperblock * pima->blockcount / psf->sf.channels ;
 		} ;
 
 	return 0 ;
@@ -232,7 +232,7 @@ ima_reader_init (SF_PRIVATE *psf, int blockalign, int samplesperblock)
 
 				pima->decode_block = wavlike_ima_decode_block ;
 
-				psf->sf.frames = pima->samplesperblock * pima->blocks ;
+				psf->sf.frames = (sf_count_t) pima->samplesperblock * pima->blocks ;
 				break ;
 
 		case SF_FORMAT_AIFF :
@@ -735,7 +735,7 @@ aiff_ima_seek (SF_PRIVATE *psf, int mode, sf_count_t offset)
 		return 0 ;
 		} ;
 
-	if (offset < 0 || offset > pima->blocks * pima->samplesperblock)
+	if (offset < 0 || offset > (sf_count_t) pima->blocks * pima->samplesperblock)
 	{	psf->error = SFE_BAD_SEEK ;
 		return	PSF_SEEK_ERROR ;
 		} ;
@@ -745,7 +745,7 @@ aiff_ima_seek (SF_PRIVATE *psf, int mode, sf_count_t offset)
 	newblockaiff	= newblock * psf->sf.channels ;
 
 	if (mode == SFM_READ)
-	{	psf_fseek (psf, psf->dataoffset + newblockaiff * pima->blocksize, SEEK_SET) ;
+	{	psf_fseek (psf, psf->dataoffset + (sf_count_t) newblockaiff * pima->blocksize, SEEK_SET) ;
 		pima->blockcount = newblockaiff ;
 		pima->decode_block (psf, pima) ;
 		pima->samplecount = newsample ;
@@ -756,7 +756,7 @@ aiff_ima_seek (SF_PRIVATE *psf, int mode, sf_count_t offset)
 		return	PSF_SEEK_ERROR ;
 		} ;
 
-	return newblock * pima->samplesperblock + newsample ;
+	return (sf_count_t) newblock * pima->samplesperblock + newsample ;
 } /* aiff_ima_seek */
 
 static sf_count_t
@@ -786,7 +786,7 @@ wavlike_ima_seek (SF_PRIVATE *psf, int mode, sf_count_t offset)
 		return 0 ;
 		} ;
 
-	if (offset < 0 || offset > pima->blocks * pima->samplesperblock)
+	if (offset < 0 || offset > (sf_count_t) pima->blocks * pima->samplesperblock)
 	{	psf->error = SFE_BAD_SEEK ;
 		return	PSF_SEEK_ERROR ;
 		} ;
@@ -795,7 +795,7 @@ wavlike_ima_seek (SF_PRIVATE *psf, int mode, sf_count_t offset)
 	newsample	= offset % pima->samplesperblock ;
 
 	if (mode == SFM_READ)
-	{	psf_fseek (psf, psf->dataoffset + newblock * pima->blocksize, SEEK_SET) ;
+	{	psf_fseek (psf, psf->dataoffset + (sf_count_t) newblock * pima->blocksize, SEEK_SET) ;
 		pima->blockcount = newblock ;
 		pima->decode_block (psf, pima) ;
 		pima->samplecount = newsample ;
@@ -806,7 +806,7 @@ wavlike_ima_seek (SF_PRIVATE *psf, int mode, sf_count_t offset)
 		return	PSF_SEEK_ERROR ;
 		} ;
 
-	return newblock * pima->samplesperblock + newsample ;
+	return (sf_count_t) newblock * pima->samplesperblock + newsample ;
 } /* wavlike_ima_seek */
 
 /*==========================================================================================
